@@ -364,6 +364,11 @@ class Intervals:
             return
         if name in self.summaries:
             iv = self.summaries[name](self, env, t)
+        elif re.search(r"convert::num::<impl core::convert::From<(u8|u16|u32|u64|usize|i8|i16|i32|i64)> for [ui](8|16|32|64|128|size)>::from$", name) and len(t["args"]) == 1:
+            # lossless integer widening keeps the operand's interval
+            v = self.val(env, t["args"][0])
+            if v is not None:
+                iv = v
         else:
             for rx, r in CALL_RANGES:
                 if rx.search(name) or (d and rx.search(d)):
